@@ -61,7 +61,53 @@ var randState struct {
 	on   atomic.Bool
 }
 
+// muxReg records every multiplexer created during the current run (announced through VerifHooks.NewMux), per
+// destination in creation order. Creation order per destination is deterministic: multiplexers for one address are
+// created by one goroutine at a time (client construction, a topology refresh, a redirect under the client's lock).
+var muxReg struct {
+	mu    sync.Mutex
+	byDst map[string][]*mux
+	pinP  int // >0: every new multiplexer gets this parallelism instead of GOMAXPROCS
+}
+
+func muxRegReset(pinP int) {
+	muxReg.mu.Lock()
+	muxReg.byDst = map[string][]*mux{}
+	muxReg.pinP = pinP
+	muxReg.mu.Unlock()
+}
+
+func muxRegName(w *muxwire) string {
+	muxReg.mu.Lock()
+	defer muxReg.mu.Unlock()
+	for dst, ms := range muxReg.byDst {
+		for k, m := range ms {
+			for i := range m.muxwires {
+				if &m.muxwires[i] == w {
+					return fmt.Sprintf("%s/%d#%d", dst, k, i)
+				}
+			}
+		}
+	}
+	return ""
+}
+
 func installHooks() {
+	VerifHooks.NewMux = func(x any) {
+		m, ok := x.(*mux)
+		if !ok || curSim.Load() == nil {
+			return
+		}
+		muxReg.mu.Lock()
+		if muxReg.byDst == nil {
+			muxReg.byDst = map[string][]*mux{}
+		}
+		muxReg.byDst[m.dst] = append(muxReg.byDst[m.dst], m)
+		if muxReg.pinP > 0 {
+			m.maxp = muxReg.pinP
+		}
+		muxReg.mu.Unlock()
+	}
 	VerifHooks.Yield = func(ctx context.Context, site string, obj any, cmd []string) {
 		s := curSim.Load()
 		if s == nil {
@@ -285,6 +331,7 @@ func VerifSetSim(s *sched.Sim, seed uint64) {
 		randState.ctr.Store(0)
 		randState.on.Store(true)
 		queueTypeFromEnv = ""
+		muxRegReset(0)
 	}
 	curSim.Store(s)
 }
@@ -301,6 +348,13 @@ func VerifDialFn(s *sched.Sim) func(context.Context, string, *net.Dialer, *tls.C
 
 // VerifPinParallelism pins the worker counts a client derives from GOMAXPROCS at construction time.
 func VerifPinParallelism(cl Client, n int) { setMaxP(cl, n) }
+
+// VerifPinAllParallelism pins the parallelism of every multiplexer created from now on in this run.
+func VerifPinAllParallelism(n int) {
+	muxReg.mu.Lock()
+	muxReg.pinP = n
+	muxReg.mu.Unlock()
+}
 
 // VerifCoarseExtra parks additional yield sites (nil = default set).
 func VerifCoarseExtra(m map[string]bool) {
